@@ -30,9 +30,14 @@ def stripComments (cs : List Char) : List Char := stripAux false cs
 def ensureNewline (cs : List Char) : List Char :=
   if cs.getLast? == some '\n' then cs else cs ++ ['\n']
 
-/-! ### LexerHelper / get_err_pos (positions are char indices of the uncommented text) -/
+/-! ### LexerHelper / get_err_pos (positions are byte offsets into the uncommented text) -/
+/-- chars with their byte offsets (LALRPOP positions and, since the repair, LexerHelper positions are
+    byte offsets of the UTF-8 text) -/
+def withOffsets (cs : List Char) : List (Char × Nat) :=
+  (cs.foldl (fun (acc : List (Char × Nat) × Nat) c => ((c, acc.2) :: acc.1, acc.2 + c.utf8Size)) ([], 0)).1.reverse
+
 def newlineList (cs : List Char) : List Nat :=
-  (cs.zipIdx).filterMap fun (c, i) => if c == '\n' then some i else none
+  (withOffsets cs).filterMap fun (c, i) => if c == '\n' then some i else none
 
 /-- `get_newline_before(i)`: (index, position) of the first newline after `i`; the last one if none -/
 def getNewlineBefore (nl : List Nat) (i : Nat) : Option (Nat × Nat) :=
@@ -61,7 +66,8 @@ def getErrPos (nl : List Nat) (pos : Nat) : Option (Nat × Nat × Nat) :=
     | none => none
     | some (s, e) => some (line + 1, s, e)
 
-def sliceStr (cs : List Char) (a b : Nat) : String := String.ofList ((cs.drop a).take (b - a))
+def sliceStr (cs : List Char) (a b : Nat) : String :=
+  String.ofList (((withOffsets cs).filter fun (_, i) => a ≤ i && i < b).map (·.1))
 
 /-! ### print commands (print.lalrpop) -/
 def hexDigitU (n : Nat) : Char := if n < 10 then Char.ofNat (48 + n) else Char.ofNat (55 + n)
@@ -192,6 +198,7 @@ structure Result where
   diag : Bool := false            -- refused before execution (a diagnostic was printed)
   syntaxUnpredicted : Bool := false  -- stdout after "Syntax Error" is not predicted
   panic : Bool := false
+  tailUnpredicted : Bool := false    -- stdout is predicted only up to the end of `stdout` (internal error text follows)
 
 structure Prog where
   code : Array String
@@ -229,8 +236,8 @@ def loop (p : Prog) : Nat → Nat → Machine → Ctx → List String → String
       let tr := idx :: tr
       let done := fun (out : String) (m : Machine) => ({ stdout := out, exit := 0, trace := tr.reverse, final := some m } : Result)
       match (parseLine line).map (exec idx m ctx) with
-      | none => done (out ++ "Internal Error : Should not have reached here in interpreter parser\nError : ?\n") m
-      | some (.error _) => done (out ++ "Internal Error : Should not have reached here in interpreter parser\nError : ?\n") m
+      | none => { done (out ++ "Internal Error : Should not have reached here in interpreter parser\n") m with tailUnpredicted := true }
+      | some (.error _) => { done (out ++ "Internal Error : Should not have reached here in interpreter parser\n") m with tailUnpredicted := true }
       | some (.ok (st, m, ctx)) =>
         match st with
         | .HALT => done out m
@@ -241,7 +248,7 @@ def loop (p : Prog) : Nat → Nat → Machine → Ctx → List String → String
             let out := out ++ s!"Output of line {ln} : {text} :\n"
             match runPrint m line with
             | some s => loop p fuel (idx + 1) m ctx stdin (out ++ s) tr
-            | none => done (out ++ "Internal Error : Should not have reached here in print parser\nError : ?\n") m
+            | none => { done (out ++ "Internal Error : Should not have reached here in print parser\n") m with tailUnpredicted := true }
         | .JMP n => loop p fuel n m ctx stdin out tr
         | .NEXT => loop p fuel (idx + 1) m ctx stdin out tr
         | .REPEAT => loop p fuel idx m ctx stdin out tr
@@ -278,6 +285,25 @@ def loop (p : Prog) : Nat → Nat → Machine → Ctx → List String → String
 
 def labelOfP (l : Asm.PLabel) : Label := ⟨if l.type == .DATA then .DATA else .CODE, l.map⟩
 
+/-- the driver's checks between assembling and running: every jump target recorded as undefined must
+    have been defined by the end (reported: the first in source order), and a CODE label `start` must
+    exist.  `.ok idx` = index of the first instruction to execute. -/
+inductive Refusal where
+  | undefinedLabel (pos : Nat) (name : String)
+  | noStart
+  deriving Repr, DecidableEq
+
+def sortUndefined (u : List (Nat × String)) : List (Nat × String) :=
+  (u.toArray.qsort (fun a b => a.1 < b.1 || (a.1 == b.1 && a.2 < b.2))).toList
+
+def preflight (st : Asm.St) : Except Refusal Nat :=
+  match (sortUndefined st.undefined).find? (fun (_, l) => (st.labels.lookup l).isNone) with
+  | some (pos, l) => .error (.undefinedLabel pos l)
+  | none =>
+    match st.labels.lookup "start" with
+    | none => .error .noStart
+    | some l => if l.type == .DATA then .error .noStart else .ok l.map
+
 /-- `CMDDriver::run` + the final `println!()` of main -/
 def runCLI (src : String) (stdin : List String) (interpreted : Bool) (fuel : Nat) : Result :=
   let text := ensureNewline (stripComments src.toList)
@@ -286,7 +312,7 @@ def runCLI (src : String) (stdin : List String) (interpreted : Bool) (fuel : Nat
     match getErrPos nl pos with
     | some (line, s, e) => f line s e
     | none => "?"
-  let finish := fun (r : Result) => if r.final.isNone && r.exit == 0 && !r.diag then r else { r with stdout := r.stdout ++ "\n" }
+  let finish := fun (r : Result) => if (r.final.isNone && r.exit == 0 && !r.diag) || r.tailUnpredicted then r else { r with stdout := r.stdout ++ "\n" }
   match Asm.assemble (String.ofList text) with
   | .error (.panic _) => { stdout := "", exit := 101, panic := true }
   | .error (.custom a _ msg) =>
@@ -294,22 +320,18 @@ def runCLI (src : String) (stdin : List String) (interpreted : Bool) (fuel : Nat
              syntaxUnpredicted := msg == "unsupported" || msg.startsWith "Error in Macro Expansion" }
   | .error _ => finish { stdout := "Syntax Error", exit := 0, diag := true, syntaxUnpredicted := true }
   | .ok st =>
-    -- undefined labels, first in source order
-    let und := (st.undefined.toArray.qsort (fun a b => a.1 < b.1 || (a.1 == b.1 && a.2 < b.2))).toList
-    match und.find? (fun (_, l) => (st.labels.lookup l).isNone) with
-    | some (pos, l) =>
+    match preflight st with
+    | .error (.undefinedLabel pos l) =>
       finish { stdout := diagAt pos (fun line s e => s!"Label {l} used but not defined at {line} :{pos - s} : {sliceStr text s e}") ++ "\n", exit := 0, diag := true }
-    | none =>
-      match st.labels.lookup "start" with
-      | none => finish { stdout := "Error : necessary label 'start' is not found in code\n", exit := 0, diag := true }
-      | some l =>
-        if l.type == .DATA then finish { stdout := "Error : necessary label 'start' is not found in code\n", exit := 0, diag := true } else
+    | .error .noStart => finish { stdout := "Error : necessary label 'start' is not found in code\n", exit := 0, diag := true }
+    | .ok startIdx =>
+      (
         let ctx : Ctx := { fnMap := st.fns, labelMap := st.labels.map fun (k, v) => (k, labelOfP v), callStack := [] }
         match Loader.loadAll Machine.new 0 st.data.toList with
         | none => finish { stdout := "Internal Error : Should not have reached here in data parser\nError : ?\n", exit := 0 }
         | some (m, _) =>
           let m := { m with ds := 0#16 }
           let p : Prog := { code := st.code.push "hlt", ctx := ctx, smap := st.smap, nl := nl, text := text, interpreted := interpreted }
-          finish (loop p fuel l.map m ctx stdin "" [])
+          finish (loop p fuel startIdx m ctx stdin "" []))
 
 end Emu8086.Driver
